@@ -74,6 +74,7 @@ func startChild() (*child, error) {
 	}
 	tb := &tailBuf{}
 	cmd.Stderr = tb
+	cmd.WaitDelay = 2 * time.Second
 	if err := cmd.Start(); err != nil {
 		return nil, err
 	}
@@ -83,7 +84,9 @@ func startChild() (*child, error) {
 func (c *child) kill() {
 	_ = c.in.Close()
 	_ = c.cmd.Process.Kill()
-	_, _ = c.cmd.Process.Wait()
+	// Wait (not Process.Wait): it returns when the child's stderr has been copied into errBuf, so that firstFatal sees
+	// the runtime's message of a child that died by itself; WaitDelay bounds it
+	_ = c.cmd.Wait()
 }
 
 var (
@@ -93,7 +96,20 @@ var (
 
 const nChildren = 4
 
-func runViaChild(input string) string {
+func runViaChild(input string) string { return runViaChildT(input, 25*time.Second, false) }
+
+// runAlone: the second run of a case on which the driver gave up (drv.Prop.GaveUp): a fresh child process, nothing else
+// in flight, four times the time limit.
+func runAlone(input string) string { return runViaChildT(input, 100*time.Second, true) }
+
+// gaveUp: the driver's own time limit, a child that died without a message of the Go runtime (killed from outside) or
+// could not be started. `FATAL fatal error: …`, `FATAL WARNING: DATA RACE`, `FATAL panic: …` say what the code under
+// test did and are never run again.
+func gaveUp(obs string) bool {
+	return obs == "HANG" || obs == "FATAL child process died" || strings.HasPrefix(obs, "err=child:")
+}
+
+func runViaChildT(input string, limit time.Duration, fresh bool) string {
 	poolOnce.Do(func() {
 		pool = make(chan *child, nChildren)
 		for i := 0; i < nChildren; i++ {
@@ -101,6 +117,10 @@ func runViaChild(input string) string {
 		}
 	})
 	c := <-pool
+	if c != nil && fresh {
+		c.kill()
+		c = nil
+	}
 	if c == nil {
 		var err error
 		if c, err = startChild(); err != nil {
@@ -130,7 +150,7 @@ func runViaChild(input string) string {
 		}
 		pool <- c
 		return r.line
-	case <-time.After(25 * time.Second):
+	case <-time.After(limit):
 		c.kill()
 		pool <- nil
 		return "HANG"
@@ -233,6 +253,10 @@ func main() {
 		Class:   class,
 		Workers: 4,
 		Timeout: 30 * time.Second,
+		// a case the driver gave up on is run once more, alone, in a fresh child with a larger limit (drv.Prop.GaveUp)
+		GaveUp:       gaveUp,
+		RunAlone:     runAlone,
+		AloneTimeout: 110 * time.Second,
 		Rule: "kind=prov: random request lists (name(n,sleep), sleep(ms), malformed items, several weighted scenarios, duplicate names) through the real http/scenario provider plugin; " +
 			"kind=gun: random scenarios with chains of captured variables (what a request captures is mostly rendered by the request defined next; the first scenario often lists every request in definition order), [next]/[idx]/[last]/[rand] preprocessors, jsonpath/header extractors (header values through lower/upper/substr/replace modifier chains, several mapping entries per extractor, malformed modifiers) and assert/response blocks (status, body texts, header texts, size eq/lt/gt at and around the real body length, alone and combined) shot by the real http/scenario gun (1 and 4 instances) at scripted targets that fail chosen steps (transport, body cut short after the headers, bad JSON, missing key, status), data sources of 0..60 rows; plus focused three-request cases a|b|c for the postprocessors; every case runs in a child process so that a runtime fatal error (concurrent map writes, data race in the -race build) is attributed to its input; " +
 			"kind=first: all instances (2..16) make the FIRST [next] lookup of a path on a fresh iterator at the same moment, under a schedule forced through the iterator's own mutex (mode=ctl) or released by a spin barrier (mode=par); " +
